@@ -122,6 +122,21 @@ fn values_of(op: &HOp) -> Vec<f64> {
 
 /// Decode a sum of distinct powers of two into the set of values (None if it is not a subset sum).
 fn decode(sum: f64, universe: &[f64]) -> Option<Vec<f64>> {
+    if universe.iter().any(|v| *v < 0.0) {
+        // Signed universe (+-2^k with distinct k): a subset is still determined by its sum (the lowest exponent in
+        // which two subsets differ leaves an odd multiple of 2^k), but greedy subtraction no longer finds it.
+        let u: Vec<f64> = universe.iter().cloned().filter(|v| !v.is_nan()).collect();
+        assert!(u.len() <= 20, "signed universes are decoded by enumeration");
+        for mask in 0u32..(1u32 << u.len()) {
+            let pick: Vec<f64> = (0..u.len()).filter(|i| mask >> i & 1 == 1).map(|i| u[i]).collect();
+            if pick.iter().sum::<f64>() == sum {
+                let mut pick = pick;
+                pick.sort_by(|a, b| b.partial_cmp(a).unwrap());
+                return Some(pick);
+            }
+        }
+        return None;
+    }
     let mut rest = sum;
     let mut u: Vec<f64> = universe.to_vec();
     u.sort_by(|a, b| b.partial_cmp(a).unwrap());
@@ -608,6 +623,8 @@ pub fn driver_set(prop: Prop, thorough: bool) -> Vec<Planned> {
             // one thread observing through two handles of the histogram in turn (clones of clones), against a collector
             shapes.push(("D13 OaObOa|CC", Path::Direct, vec![vec![Observe(a), ObserveB(d), Observe(e)], col(2)], Mode::U));
             shapes.push(("D13v OaOb|CC", Path::VecChild, vec![vec![Observe(a), ObserveB(d)], col(2)], Mode::U));
+            // signed observations (negative sums drained and carried over)
+            shapes.push(("D14 O(-)O(-)|CC", Path::Direct, vec![o(&[-a, -d]), col(2)], Mode::U));
             shapes.push(("D12 C|C|C|OC", Path::Direct, vec![col(1), col(1), col(1), vec![Observe(c), Collect]], Mode::B(2)));
             if thorough {
                 shapes.push(("D9 OOO|CCC", Path::Direct, vec![o(&[a, c, e]), col(3)], Mode::U));
@@ -635,6 +652,10 @@ pub fn driver_set(prop: Prop, thorough: bool) -> Vec<Planned> {
             }
             // a flusher whose sum update can lose the race four times in a row
             shapes.push(("E11 Batch|OOOO", Path::Direct, vec![vec![Batch(vec![a])], o(&[b, c, d, f])], Mode::U));
+            // signed observations: sums that are negative or zero-crossing when they are drained, carried over or flushed
+            shapes.push(("E14 O(-)O|CCC", Path::Direct, vec![o(&[-d, a]), col(3)], Mode::U));
+            shapes.push(("E15 Batch(-)|O|CC", Path::Direct, vec![vec![Batch(vec![-e, b])], o(&[c]), col(2)], big));
+            shapes.push(("E16 Batch(-)O(-)|CCC", Path::Direct, vec![vec![Batch(vec![-a, -f]), Observe(-c)], col(3)], Mode::U));
             if thorough {
                 shapes.push(("E7 OO|OO|CCC", Path::Direct, vec![o(&[a, d]), o(&[b, f]), col(3)], Mode::B(3)));
                 shapes.push(("E8 O|C|C|C", Path::Direct, vec![o(&[a]), col(1), col(1), col(1)], Mode::B(3)));
